@@ -156,7 +156,8 @@ func Generate(r *vc.Rand, id string, o Opts) *spec.Spec {
 		x.genSecurityGadgetService() // gadgets.go
 	}
 	if !o.Runtime && !o.NoGadgets {
-		x.genServerGadget() // gadgets.go
+		x.genPathOrderGadget() // gadgets.go
+		x.genServerGadget()    // gadgets.go
 	}
 	// a single-file server is a GET route: drop the ones whose full path is also served by a GET or HEAD endpoint of
 	// ANY service (two handlers for one verb and path make the design ambiguous; goa does not detect it)
